@@ -17,6 +17,7 @@ class Result:
         self.caps = {}
         self.capsok = {}
         self.conflicts = {}                              # gid -> {n, rr, states}
+        self.design_timeouts = []
         self.design_errors = []                          # TLC errors of the spec-only model (spec bug or oracle bug)
         self.verdicts = {}                               # (gid, bytes tuple, ws, nl) -> payload
         self.event_kinds = collections.Counter()
@@ -26,8 +27,17 @@ class Result:
         self.wall = {}
 
 
+def _soft(f):
+    try:
+        return f()
+    except Infra as e:
+        if 'TLC timeout' in str(e):
+            return None
+        raise
+
+
 def run(entries, workname, design_L=None, design_ws=(), product_depth=8, do_product=True, do_traces=True,
-        tlc_procs=4, tlc_workers=4, timeout=1500, witness_jobs=True, keep_lex=False, env=None):
+        tlc_procs=4, tlc_workers=4, timeout=1500, witness_jobs=True, keep_lex=False, env=None, design_only=None, design_invs=None):
     res = Result()
     t0 = time.time()
     work = pipeline.run_harness(entries, workname, env)
@@ -53,22 +63,32 @@ def run(entries, workname, design_L=None, design_ws=(), product_depth=8, do_prod
         seen = set()
         dl = []
         for e in live:
+            if design_only is not None and e.gid not in design_only:
+                continue
             key = json.dumps(e.tla['rules']) + json.dumps(e.tla['tprec']) + json.dumps(e.tla['tassoc']) + json.dumps(e.tla['tbytes'])
             if key not in seen:
                 seen.add(key)
                 dl.append(e)
-        for ci, part in enumerate(pipeline.chunks(dl, tlc_procs)):
+        # many small runs rather than few large ones: the pool balances them, and one expensive grammar cannot starve the rest
+        nchunks = max(tlc_procs, (len(dl) + 11) // 12)
+        for ci, part in enumerate(pipeline.chunks(dl, nchunks)):
             env, _ = pipeline.tlc_inputs(part, work, 'design%d' % ci, with_traces=False)
             env.pop('VERIF_DUMPS', None)
             cfg = pipeline.write_cfg(work, 'design%d' % ci, 'Spec',
-                                     ['Safe', 'AcceptsExactlyTheLanguage', 'ResultIsDerivationTree', 'ReportedOnceAtTheRightPlace'],
+                                     design_invs or ['Safe', 'AcceptsExactlyTheLanguage', 'ResultIsDerivationTree', 'ReportedOnceAtTheRightPlace', 'PrecedenceShapesTheTree'],
                                      {'L': design_L, 'WSBYTES': pipeline.tla_set(design_ws)})
-            tasks.append(('design', part, (lambda env=env, cfg=cfg, ci=ci: vlib.run_tlc('MCDriver', cfg, env, '%s_design%d' % (workname, ci), workers=tlc_workers, timeout=timeout))))
+            tasks.append(('design', part, (lambda env=env, cfg=cfg, ci=ci: _soft(lambda: vlib.run_tlc('MCDriver', cfg, env, '%s_design%d' % (workname, ci), workers=tlc_workers, timeout=timeout)))))
     t1 = time.time()
     outs = vlib.run_parallel([t[2] for t in tasks], max_par=tlc_procs * 2)
     res.wall['tlc1'] = time.time() - t1
     witnesses = collections.defaultdict(list)
     for (kind, part, _), r in zip(tasks, outs):
+        if r is None:
+            # a spec-only run that did not finish within its budget: no verdict from it (the specification is checked against
+            # its own oracles there, nothing about the implementation), recorded in the evidence
+            res.design_timeouts.append([e.gid for e in part])
+            res.tlc_runs.append({'kind': kind, 'grammars': len(part), 'timed_out_after_s': timeout})
+            continue
         res.states += r.distinct
         res.transitions += r.generated
         res.tlc_runs.append({'kind': kind, 'grammars': len(part), 'distinct': r.distinct, 'generated': r.generated, 'wall_s': round(r.wall, 1), 'exit': r.exit})
